@@ -120,18 +120,16 @@ theorem closed_writer_cannot_finish (ext : WExt) (s : WState) (hc : s.inner = .c
   simp [hc, hx, h1, Inner.currentCompression, bind, pure]
 
 /-- The compressed size is guarded as well: an entry not declared large whose compressed size
-exceeds 0xFFFFFFFF is refused when its header is back-patched. -/
+exceeds 0xFFFFFFFF is refused when its header is to be back-patched — BEFORE the header is touched
+(D19): no I/O call is made, the sink keeps its contents and stays positioned at the end of the entry,
+for every fault index. -/
 theorem compressed_overflow_rejected {β} (s : WState) (file : FileData)
     (k : Unit → M (Except ZErr β × WState))
-    (hl : file.largeFile = false) (hbig : file.compressedSize > ZIP64_BYTES_THR) (d : Dev) :
-    ∃ d', updateLocalHeader s file k none d = (.ok (.error (.io .other), s), d') := by
-  have hne : le32 file.crc32 ≠ [] := by simp [le32]
+    (hl : file.largeFile = false) (hbig : file.compressedSize > ZIP64_BYTES_THR) (fa : Option Nat) (d : Dev) :
+    updateLocalHeader s file k fa d = (.ok (.error (.io .other), s), d) := by
   unfold updateLocalHeader
-  rw [io_run, M.seek_start_run]
-  simp only [Option.some_ne_none, reduceCtorEq, if_false]
-  rw [io_run, M.writeAll_run _ hne]
-  simp only [reduceCtorEq, if_false, hl, Bool.false_eq_true, hbig, if_true]
-  exact ⟨_, rfl⟩
+  simp only [hl, hbig, Bool.not_false, decide_true, Bool.and_self, if_true]
+  rfl
 
 /-! ### Non-vacuity and the boundary values -/
 
